@@ -26,8 +26,10 @@
 (*             equal and invalid keys                                      *)
 (*   manifest  groups, permissions, ABI, trusts, standards, features       *)
 (*   nef       compiler / source / tokens / script / checksum limits       *)
-(*   mut       byte-level mutation (format x operator x field ordinal)     *)
-(*   jmut      JSON-level mutation (format x operator x node ordinal)      *)
+(*   mut       byte-level mutation (operator x field ordinal), for every   *)
+(*             format of Formats                                           *)
+(*   jmut      JSON-level mutation (operator x node ordinal), for every    *)
+(*             format of JFormats                                          *)
 (***************************************************************************)
 EXTENDS Integers, Sequences, FiniteSets, TLC, Json
 
@@ -35,6 +37,7 @@ CONSTANTS Spaces,     \* which spaces this run enumerates
           CondDepth,  \* deepest condition tree has CondDepth + 1 levels
           ItemDepth,  \* deepest stack item tree has ItemDepth + 1 levels
           MutFields,  \* field ordinals 0..MutFields-1 from the head and from the tail
+          Tags,       \* byte values written over one-byte fields (type tags, flags, enumerations)
           JMutNodes   \* JSON node ordinals 0..JMutNodes-1
 
 MaxNesting == 3        \* transaction.MaxConditionNesting: levels of a condition tree
@@ -49,7 +52,7 @@ SeqMax(s) == IF s = <<>> THEN 0 ELSE Max(Head(s), SeqMax(Tail(s)))
 (* [t, cs, rep]: rep > 0 means "rep copies of cs[1]"; rep = -1 means no children at all (an empty And / Or) *)
 Leaf(t) == [t |-> t, cs |-> <<>>, rep |-> 0]
 CLeaves == {Leaf(t) : t \in {"BoolT", "BoolF", "ScriptHash", "Group", "CalledByEntry", "CalledByContract", "CalledByGroup"}}
-CSib == {Leaf("BoolT"), Leaf("CalledByEntry"), Leaf("Group")}
+CSib == {Leaf("BoolT"), Leaf("Group")}
 CNode(t, cs) == [t |-> t, cs |-> cs, rep |-> 0]
 RECURSIVE CT(_)
 CT(d) ==
@@ -204,17 +207,22 @@ Formats == {"tx", "tx-frombytes", "block", "block-sr", "header", "header-sr", "w
             "nef", "item", "item-protected", "aer", "notification", "contract", "trimmed-block"}
 PosOps == {"nc-fd", "nc-fe", "nc-ff", "len-inc", "len-dec", "trunc", "trunc-mid", "dup-field", "dup-span", "fill-00", "fill-ff", "drop-field",
            "cnt-17", "cnt-256", "cnt-64k", "cnt-64k1", "cnt-16m", "cnt-16m1", "cnt-2g", "cnt-max"}
-Tags == {0, 1, 2, 3, 4, 16, 17, 24, 25, 32, 33, 34, 40, 41, 48, 64, 65, 72, 96, 97, 128, 224, 253, 255}
+(* a case is (operator, anchor, ordinal[, tag]); the driver applies it to EVERY format of Formats that has the field *)
 MutCases ==
-    {[fmt |-> f, op |-> o, anchor |-> a, k |-> k, tag |-> 0] : f \in Formats, o \in PosOps, a \in {"head", "tail"}, k \in 0..(MutFields-1)}
-    \cup {[fmt |-> f, op |-> "tag", anchor |-> a, k |-> k, tag |-> t] : f \in Formats, a \in {"head", "tail"}, k \in 0..(MutFields-1), t \in Tags}
-    \cup {[fmt |-> f, op |-> "trail", anchor |-> "tail", k |-> k, tag |-> t] : f \in Formats, k \in {1, 2, 9}, t \in {0, 1, 255}}
+    {[fmts |-> "binary", op |-> o, anchor |-> a, k |-> k, tag |-> 0] : o \in PosOps, a \in {"head", "tail"}, k \in 0..(MutFields-1)}
+    \cup {[fmts |-> "binary", op |-> "tag", anchor |-> a, k |-> k, tag |-> t] : a \in {"head", "tail"}, k \in 0..(MutFields-1), t \in Tags}
+    \cup {[fmts |-> "binary", op |-> "trail", anchor |-> "tail", k |-> k, tag |-> t] : k \in {1, 2, 9}, t \in {0, 1, 255}}
+    \* anchor "small": the k-th one-byte field holding a small value (counts, lengths, tags, flags), wherever it lies
+    \cup {[fmts |-> "binary", op |-> o, anchor |-> "small", k |-> k, tag |-> 0] : k \in 0..(2 * MutFields - 1),
+            o \in {"nc-fd", "len-inc", "len-dec", "cnt-17", "cnt-256", "cnt-64k1", "cnt-16m", "cnt-max", "dup-span"}}
+    \cup {[fmts |-> "binary", op |-> "tag", anchor |-> "small", k |-> k, tag |-> t] : k \in 0..(2 * MutFields - 1), t \in Tags}
 
 JFormats == {"tx", "block", "header", "signer", "rule", "attr", "witness", "stateroot", "notaryreq", "aer", "applog", "notification",
              "nef", "manifest", "contract", "item", "item-plain", "mptnode"}
 JOps == {"drop", "null", "dup-elem", "drop-elem", "to-number", "to-string", "to-bool", "to-array", "to-object", "big-number", "negative",
          "fraction", "deep", "long-string", "bogus-enum", "empty-string", "bad-base64", "bad-hex", "dup-key"}
-JMutCases == {[fmt |-> f, op |-> o, anchor |-> "head", k |-> k, tag |-> 0] : f \in JFormats, o \in JOps, k \in 0..(JMutNodes-1)}
+JMutCases == {[fmts |-> "json", op |-> o, anchor |-> "head", k |-> k, tag |-> 0] : o \in JOps, k \in 0..(JMutNodes-1)}
+FormatLists == {[fmts |-> "list", binary |-> Formats, json |-> JFormats]}
 
 (* ==================================================================== machine *)
 VARIABLES space, c
@@ -223,15 +231,18 @@ Init ==
     /\ space \in Spaces
     /\ c \in CASE space = "cond" -> Conds [] space = "signer" -> Signers [] space = "attrs" -> AttrCases
              [] space = "item" -> Items [] space = "manifest" -> ManifestCases [] space = "nef" -> NefCases
-             [] space = "mut" -> MutCases [] space = "jmut" -> JMutCases
+             [] space = "mut" -> MutCases [] space = "jmut" -> JMutCases [] space = "formats" -> FormatLists
 Next == FALSE /\ UNCHANGED vars
 Spec == Init /\ [][Next]_vars
 
 Legal == CASE space = "cond" -> CondLegal(c) [] space = "signer" -> SignerLegal(c) [] space = "attrs" -> AttrLegal(c)
-           [] space = "item" -> (IF c.t = "Special" THEN TRUE ELSE ItemStrict(c)) [] space = "manifest" -> ManifestLegal(c)
+           [] space = "item" -> TRUE [] space = "manifest" -> ManifestLegal(c)
            [] space = "nef" -> NefLegal(c) [] OTHER -> TRUE
 Laws == /\ space = "cond" => CondLaw(c)
         /\ space = "item" => ItemLaw(c)
         /\ space = "signer" => (SignerLegal(c) /\ c.scopes >= 128 => c.nc = -1 /\ c.ng = -1 /\ c.nr = -1)
-Emit == PrintT(<<"@@CASE@@", ToJson([space |-> space, legal |-> Legal, c |-> c])>>)
+(* strict: the strict serialiser (contract storage, notifications) takes the item; every enumerated tree is taken by the
+   protected one (execution results) *)
+Strict == IF space = "item" /\ c.t # "Special" THEN ItemStrict(c) ELSE TRUE
+Emit == PrintT(<<"@@CASE@@", ToJson([space |-> space, legal |-> Legal, strict |-> Strict, c |-> c])>>)
 =============================================================================
